@@ -29,6 +29,9 @@ func (jenny validationMethods) generateForObject(buffer *strings.Builder, contex
 		return nil
 	}
 
+	// references being followed: aliases of arrays and maps can be recursive (`A: [...A]`)
+	following := make(map[string]struct{})
+
 	var resolvesToConstraints func(typeDef ast.Type) bool
 	resolvesToConstraints = func(typeDef ast.Type) bool {
 		if typeDef.IsAny() {
@@ -44,6 +47,13 @@ func (jenny validationMethods) generateForObject(buffer *strings.Builder, contex
 			if resolved.IsStruct() {
 				return true
 			}
+
+			if _, found := following[typeDef.Ref.String()]; found {
+				return false
+			}
+
+			following[typeDef.Ref.String()] = struct{}{}
+			defer delete(following, typeDef.Ref.String())
 
 			// aliases of arrays and maps: their elements can hold constraints
 			if resolved.IsArray() || resolved.IsMap() {
